@@ -12,15 +12,18 @@ import (
 
 // Plan is one generated scenario (plain, JSON-serialisable).
 type Plan struct {
-	Pool           string      `json:"pool"` // "std" | "low_memory"
-	Capacity       int         `json:"capacity"`
-	SingleProc     bool        `json:"single_proc"`
-	EventTimeoutMs int         `json:"event_timeout_ms"`
-	Actions        int         `json:"actions"` // number of scripted actions in the chain
-	Sources        []Source    `json:"sources"`
-	Output         OutputPlan  `json:"output"`
-	DeadQueue      *OutputPlan `json:"dead_queue,omitempty"`
-	Virtual        bool        `json:"virtual"` // run inside a synctest bubble
+	Pool           string `json:"pool"` // "std" | "low_memory"
+	Capacity       int    `json:"capacity"`
+	SingleProc     bool   `json:"single_proc"`
+	EventTimeoutMs int    `json:"event_timeout_ms"`
+	// AntispamThreshold > 0 switches the antispammer on: from its AntispamThreshold-th record after the
+	// first one a source is banned and Pipeline.In refuses its records (the ban outlives the run).
+	AntispamThreshold int         `json:"antispam_threshold,omitempty"`
+	Actions           int         `json:"actions"` // number of scripted actions in the chain
+	Sources           []Source    `json:"sources"`
+	Output            OutputPlan  `json:"output"`
+	DeadQueue         *OutputPlan `json:"dead_queue,omitempty"`
+	Virtual           bool        `json:"virtual"` // run inside a synctest bubble
 	// HeartbeatStallUs > 0: the streamer heartbeat pauses that long between taking its snapshot of
 	// blocked streams and each tryUnblock (gate streamer.heartbeat.beforeUnblock), which widens the
 	// window in which a stream of the snapshot is no longer blocked.
@@ -63,7 +66,7 @@ type Record struct {
 // Kid is a child of a split.
 type Kid struct {
 	ID  int      `json:"id"`
-	Ops []string `json:"ops"` // per action: pass | discard | break
+	Ops []string `json:"ops"` // per action: pass | discard | break; behind the split at a join-like action also start | cont
 }
 
 // OutputPlan configures the scripted output.
@@ -131,21 +134,21 @@ func (r *Record) Render(newline bool) []byte {
 
 // GenOpts restricts the plan generator.
 type GenOpts struct {
-	Virtual       bool
-	AllowSync     bool
-	AllowBatched  bool
-	AllowFailures bool
-	AllowDQ       bool
-	AllowSplit    bool
-	AllowHold     bool
-	AllowRefuse   bool
-	AllowWaitFor  bool
-	MaxRecords    int
-	MaxSources    int
-	MinCapacity   int
-	MaxCapacity   int
-	TimeoutFlush  bool // allow a held event at the end of a stream (flushed only by a time-out)
-	MultiHold     bool // allow two actions of the chain to hold / collapse (known-finding class)
+	Virtual           bool
+	AllowSync         bool
+	AllowBatched      bool
+	AllowFailures     bool
+	AllowDQ           bool
+	AllowSplit        bool
+	AllowHold         bool
+	AllowRefuse       bool
+	AllowWaitFor      bool
+	MaxRecords        int
+	MaxSources        int
+	MinCapacity       int
+	MaxCapacity       int
+	TimeoutFlush      bool // allow a held event at the end of a stream (flushed only by a time-out)
+	MultiHold         bool // allow two actions of the chain to hold / collapse (known-finding class)
 	BreakBeforeHolder bool // allow "break" at an action in front of the holding action
 	// RetryStorm (virtual time only): failing sends incl. "retry for ever / fail for ever" (ended by the
 	// backoff library's 15 min cap) are allowed; to keep the bubble from wedging on Batcher.mu the pool
@@ -175,6 +178,9 @@ func GenPlan(t *rapid.T, g GenOpts) Plan {
 	p.Capacity = rapid.IntRange(g.MinCapacity, g.MaxCapacity).Draw(t, "capacity")
 	p.SingleProc = rapid.IntRange(0, 3).Draw(t, "single") == 0
 	p.EventTimeoutMs = rapid.SampledFrom([]int{20, 50, 300}).Draw(t, "event_timeout")
+	if rapid.IntRange(0, 5).Draw(t, "antispam") == 0 {
+		p.AntispamThreshold = rapid.SampledFrom([]int{1, 2, 4, 8}).Draw(t, "antispam_threshold")
+	}
 	p.Actions = rapid.IntRange(1, 3).Draw(t, "actions")
 	nsrc := rapid.IntRange(1, max(1, g.MaxSources)).Draw(t, "nsources")
 	nextID := 1
@@ -253,7 +259,15 @@ func GenPlan(t *rapid.T, g GenOpts) Plan {
 						kid := Kid{ID: nextID}
 						nextID++
 						for a2 := 0; a2 < p.Actions; a2++ {
-							kid.Ops = append(kid.Ops, rapid.SampledFrom([]string{"pass", "pass", "pass", "discard", "break"}).Draw(t, "kidop"))
+							kop := rapid.SampledFrom([]string{"pass", "pass", "pass", "discard", "break"}).Draw(t, "kidop")
+							// split -> join: children continue (or start) a run of the join-like action behind the split
+							if a2 > a && (a2 == holder || a2 == holder2) {
+								kop = rapid.SampledFrom([]string{"cont", "cont", "start", "pass", "discard"}).Draw(t, "kidholdop")
+								if kop == "start" {
+									holdUsed = true
+								}
+							}
+							kid.Ops = append(kid.Ops, kop)
 						}
 						r.Kids = append(r.Kids, kid)
 					}
@@ -267,6 +281,42 @@ func GenPlan(t *rapid.T, g GenOpts) Plan {
 				r.GapUs = rapid.SampledFrom([]int{1, 50, 300, 1500}).Draw(t, "gap")
 			}
 			src.Records = append(src.Records, r)
+		}
+		if g.AllowSplit && holder >= 1 && rapid.IntRange(0, 5).Draw(t, "split_into_run") == 0 {
+			// motif "split -> join": a record starts a run at the join-like action, the next record of the
+			// stream is split in front of it and all its children continue (or leave alone) that run
+			stream := streams[rapid.IntRange(0, nstreams-1).Draw(t, "motif_stream")]
+			r1 := Record{ID: nextID, Stream: stream}
+			nextID++
+			r2 := Record{ID: nextID, Stream: stream}
+			nextID++
+			at := rapid.IntRange(0, holder-1).Draw(t, "motif_split_at")
+			for a := 0; a < p.Actions; a++ {
+				op1, op2 := "pass", "pass"
+				if a == holder {
+					op1 = "start"
+				}
+				if a == at {
+					op2 = "split"
+				}
+				r1.Ops, r2.Ops = append(r1.Ops, op1), append(r2.Ops, op2)
+				r1.Stall, r2.Stall = append(r1.Stall, 0), append(r2.Stall, 0)
+				r1.NoMatch, r2.NoMatch = append(r1.NoMatch, false), append(r2.NoMatch, false)
+			}
+			for k := rapid.IntRange(1, 3).Draw(t, "motif_nkids"); k > 0; k-- {
+				kid := Kid{ID: nextID}
+				nextID++
+				for a := 0; a < p.Actions; a++ {
+					kop := "pass"
+					if a == holder {
+						kop = rapid.SampledFrom([]string{"cont", "cont", "cont", "start", "pass"}).Draw(t, "motif_kidop")
+					}
+					kid.Ops = append(kid.Ops, kop)
+				}
+				r2.Kids = append(r2.Kids, kid)
+			}
+			holdUsed = true
+			src.Records = append(src.Records, r1, r2)
 		}
 		p.Sources = append(p.Sources, src)
 	}
